@@ -29,10 +29,11 @@ LAYOUTS = {
     "interleaved": ([0, 1, 0, 1, 2, 2, 0, 1], [2, 2, 2, 2]),
     "confined": ([0, 0, 1, 1, 2, 2, 2, 2], [2, 2, 4]),
     "oneblock": ([1, 0, 2, 0, 1, 2], [6]),
-    "deep": ([0, 1, 0, 1, 0, 1], [1] * 6),
+    "deep": ([0, 1, 0, 1, 0, 1, 0, 1, 0, 1], [1] * 10),      # every cohort spans more blocks than split_every (4): two tree levels
     "everywhere": ([0, 1, 0, 1, 0, 1], [2, 2, 2]),
     "missing": ([0, -1, 1, -1, 0, 1], [3, 3]),
     "allmissing-chunk": ([-1, -1, 0, 1, 0, 1], [2, 2, 2]),
+    "nolabel": ([-1, -1, -1, -1], [2, 2]),                    # every label missing: no group at all
 }
 METHODS = [None, "map-reduce", "cohorts", "blockwise"]
 
@@ -78,6 +79,8 @@ def run_plan_case(case):
     else:
         vals = [gen.iv((3 * i) % 7 - 3) for i in range(n)]
     kind = "float" if min(codes) < 0 else "int"
+    if case["expected"] == "range":
+        kind = "range"          # labels 0..5 are their own tokens; requested as the pandas RangeIndex(1, 4)
     array = redcase.concretize(vals, dtype)
     by = redcase.label_array(codes, kind)
     two_d = case["shape"] != "1d"
@@ -91,8 +94,14 @@ def run_plan_case(case):
         req = sorted({c for c in codes if c >= 0})
     elif case["expected"] == "absent":
         req = [4, 5]
+    elif case["expected"] == "range":
+        req = [1, 2, 3]
     if req is not None:
         kw["expected_groups"] = np.array([redcase.LABELS[kind][t] for t in req])
+        if case["expected"] == "range":
+            import pandas as pd
+
+            kw["expected_groups"] = pd.RangeIndex(1, 4)
         kw["fill_value"] = -1 if FUNCS[case["func"]] == "arg" else np.nan
     if case["engine"]:
         kw["engine"] = case["engine"]
@@ -166,6 +175,10 @@ def build(func, engine, reindex, arrdask, bydask, expected, dtypearg, layout, dt
             return None
     if shape == "1d" and rowch != "split":
         return None
+    if expected == "range" and min(LAYOUTS[layout][0]) < 0:
+        return None
+    if expected == "present" and max(LAYOUTS[layout][0]) < 0:
+        return None
     if func == "nanquantile" and engine == "numpy":
         pass
     if dtype == "i8" and min(LAYOUTS[layout][0]) < 0 and False:
@@ -181,7 +194,7 @@ def run(ctx):
         st = res.error_trace[-1] if res.error_trace else {}
         raise MachineryFailure(f"MC_Plan: {res.violated} violated by configuration {st.get('c')} — confirm on the real code (harness/drivers/c19.py) and fix the code or the model")
     sp = gen.Space("cells", {"func": list(FUNCS), "engine": [None, "numpy", "flox", "numbagg", "numba"], "reindex": [None, True, False], "arrdask": [True, False],
-                             "bydask": [False, True], "expected": ["none", "present", "absent"], "dtypearg": [False, True], "layout": list(LAYOUTS),
+                             "bydask": [False, True], "expected": ["none", "present", "absent", "present", "absent", "range"], "dtypearg": [False, True], "layout": list(LAYOUTS),
                              "dtype": ["f8", "i8"], "shape": ["1d", "2dbatch", "2dby"], "axis_i": [0, 1], "rowch": ["split", "whole"]}, build)
     budget = 5000 if ctx.tier == "quick" else 120000
     cases = sp.sample(ctx.rng, budget)
